@@ -134,3 +134,27 @@ func (s *Store) VerifVolAgeSectors(seconds int64) error {
 	_, err := s.db.Exec(`UPDATE stored_sectors SET last_access_timestamp=last_access_timestamp-$1`, seconds)
 	return err
 }
+
+// VerifVolProbe is a cheap number that changes whenever a batch of one of the
+// batched loops (RemoveVolume, Expire*, PruneSectors, MigrateSectors) commits.
+func (s *Store) VerifVolProbe() (n uint64, err error) {
+	err = s.db.QueryRow(`SELECT (SELECT COUNT(*) FROM volume_sectors) + 1000003*(SELECT COALESCE(SUM(id),0) FROM volume_sectors WHERE sector_id IS NOT NULL) + 7919*((SELECT COUNT(*) FROM contract_sector_roots) + 3*(SELECT COUNT(*) FROM contract_v2_sector_roots) + 5*(SELECT COUNT(*) FROM temp_storage_sector_roots))`).Scan(&n)
+	return
+}
+
+// VerifVolIndexes lists the volume_index values of the slot rows a volume still has.
+func (s *Store) VerifVolIndexes(volumeID int64) (idx []uint64, err error) {
+	rows, err := s.db.Query(`SELECT volume_index FROM volume_sectors WHERE volume_id=$1 ORDER BY volume_index`, volumeID)
+	if err != nil {
+		return nil, err
+	}
+	defer rows.Close()
+	for rows.Next() {
+		var i uint64
+		if err := rows.Scan(&i); err != nil {
+			return nil, err
+		}
+		idx = append(idx, i)
+	}
+	return idx, rows.Err()
+}
